@@ -148,6 +148,7 @@ func (P *Prog) verifyFunc(key string, c11 bool) (res *FuncResult) {
 		if n > 1 {
 			sfx = fmt.Sprintf("#%d", k+1)
 		}
+		x.em.setTag(r.blk)
 		post := x.newEnv(fr, r.st, nil)
 		post.old = x.entry
 		x.bindResults(post, r.val, resultNames(fn.Signature))
@@ -171,9 +172,14 @@ func (P *Prog) verifyFunc(key string, c11 bool) (res *FuncResult) {
 			p, alt := x.evalBoolAlt(post, c.Expr)
 			x.obligeAlt(fr, r.st, "ensures:"+c.Label+sfx, "ensures", p, alt, c)
 		}
-		x.frameObligations(fr, r.st, spec, sfx)
 	}
+	// which blocks can reach which (for slicing the per-obligation scripts)
+	x.em.anc = ancestors(fn)
 	out, _ := x.runBodyWith(fr, st, exitChecks)
+	x.em.setTag(-2)
+	if spec != nil {
+		x.frameObligations(fr, out, spec, "")
+	}
 	// vacuity: the normal exit must be reachable under the assumptions
 	if out.Reach != "false" {
 		x.em.oblige(&Obligation{Name: key + "/cover:return", Kind: "cover", Guard: out.Reach, Prop: "true", Cover: true, FnName: key, Props: x.defProps})
@@ -341,4 +347,25 @@ func (P *Prog) verifyLemma(key string, spec *FuncSpec) (res *FuncResult) {
 	_, obls := x.em.script(0)
 	res.Obls = obls
 	return
+}
+
+// ancestors[b] = set of blocks from which b is reachable (b included).
+func ancestors(fn *ssa.Function) map[int]map[int]bool {
+	anc := map[int]map[int]bool{}
+	for _, b := range fn.Blocks {
+		set := map[int]bool{b.Index: true}
+		work := []*ssa.BasicBlock{b}
+		for len(work) > 0 {
+			n := work[len(work)-1]
+			work = work[:len(work)-1]
+			for _, p := range n.Preds {
+				if !set[p.Index] {
+					set[p.Index] = true
+					work = append(work, p)
+				}
+			}
+		}
+		anc[b.Index] = set
+	}
+	return anc
 }
